@@ -77,7 +77,7 @@ fn exec(req: &str) -> String {
     }
 }
 
-enum Verdict { Ok, Known(String), Fail(String), NoOracle }
+enum Verdict { Ok, Known(String), KnownRound(String), Fail(String), NoOracle }
 
 fn pow10(e: u32) -> BigInt { BigInt::from(10u8).pow(e) }
 
@@ -88,7 +88,8 @@ fn pow10(e: u32) -> BigInt { BigInt::from(10u8).pow(e) }
 ///    with supported operands (|n| ≤ 2^96−1, decimals ≤ 28) it must succeed;
 ///  * round trip integer → Decimal → integer with the same decimals: returns the original
 ///    integer or an error, and with supported operands it must return the original;
-///  * Decimal → integer with `scale ≤ decimals` (value representable): exact or an error.
+///  * Decimal → integer: exact when the value is representable with `decimals` digits (or a
+///    justified overflow error); a value with non-zero excess fractional digits must be an error.
 fn oracle(req: &str, resp: &str) -> Verdict {
     let t: Vec<&str> = req.split(' ').collect();
     if resp == "panic" {
@@ -128,13 +129,31 @@ fn oracle(req: &str, resp: &str) -> Verdict {
         }
         "d2a" | "d2v" | "d2sv" => {
             let (m, s, dec): (BigInt, u32, u32) = (big(t[2]), t[3].parse().unwrap(), t[4].parse().unwrap());
-            if s > dec { return Verdict::NoOracle; } // rounding of excess fractional digits: see design.d/C43.md
-            let exact = &m * pow10(dec - s);
             let (lo, hi): (BigInt, BigInt) = match t[1] {
                 "d2a" => (BigInt::from(0), BigInt::from(u64::MAX)),
                 "d2v" => (BigInt::from(0), BigInt::from(i128::MAX)), // goes through i128
                 _ => (BigInt::from(i128::MIN), BigInt::from(i128::MAX)),
             };
+            if s > dec {
+                // more fractional digits than requested: representable only if the excess digits are zero
+                let p = pow10(s - dec);
+                let (q, rem) = (&m / &p, &m % &p); // truncating division
+                let zero = BigInt::from(0);
+                if rem == zero {
+                    return if let Some(r) = resp.strip_prefix("ok ") {
+                        if big(r) == q { Verdict::Ok } else { Verdict::Fail(format!("{m}e-{s} to {dec} decimals gave {r}, exact {q}")) }
+                    } else if q < lo || q > hi { Verdict::Ok } else { Verdict::Fail(format!("representable value {q} rejected: {resp}")) };
+                }
+                // not representable: the property demands an error; F-C43-round = silently rounded half away from zero
+                return if let Some(r) = resp.strip_prefix("ok ") {
+                    let twice = (&rem * BigInt::from(2)).magnitude().clone();
+                    let up = twice >= p.magnitude().clone();
+                    let rounded = if up { if m < zero { &q - 1 } else { &q + 1 } } else { q.clone() };
+                    if big(r) == rounded { Verdict::KnownRound(format!("{m}e-{s} is not representable with {dec} decimals but was silently rounded to {r}")) }
+                    else { Verdict::Fail(format!("{m}e-{s} to {dec} decimals gave {r}, neither an error nor the half-away-from-zero rounding {rounded}")) }
+                } else { Verdict::Ok };
+            }
+            let exact = &m * pow10(dec - s);
             if let Some(r) = resp.strip_prefix("ok ") {
                 if big(r) == exact { Verdict::Ok } else { Verdict::Fail(format!("{m}e-{s} to {dec} decimals gave {r}, exact {exact}")) }
             } else if exact < lo || exact > hi || dec - s > 38 { Verdict::Ok }
@@ -233,6 +252,7 @@ fn main() {
             Verdict::Ok => out.stat("oracle.ok"),
             Verdict::NoOracle => out.stat("oracle.none"),
             Verdict::Known(w) => { out.stat("oracle.known"); out.known("F-C43", &w, &req) }
+            Verdict::KnownRound(w) => { out.stat("oracle.known_round"); out.known("F-C43-round", &w, &req) }
             Verdict::Fail(w) => out.oracle_fail(&w, &req),
         }
         out.case_nt(&req, &resp, nt);
